@@ -627,6 +627,10 @@ func runRange(j job, inputs []input, from int) (int, *hk.Violation) {
 			return
 		}
 		_ = t.s.I.Close()
+		// the prior history of a packet may contain Close: a well-formed packet afterwards must not crash or
+		// wedge the caller either (whether it is passed on or refused is C11's subject)
+		vsched.StepBudget(3_000_000)
+		_ = t.probe(j.Kind, j.Path)
 	})
 	at := cur
 	if at >= len(inputs) {
